@@ -5,9 +5,9 @@ PID = "C07"
 MODULES = ["Prelude", "C07_Float", "C07_Model", "C07_Spec", "C07_Check"]
 PROPS_MODULE = "C07_Properties"
 THEOREMS = ["C07_floor", "C07_cap", "C07_step_safe", "C07_no_growth_when_over", "C07_burst", "C07_history",
-            "C07_overlap"]
+            "C07_overlap", "C07_multi_history"]
 EVAL = "C07_Check.eval"
-CLAUSES = ["agree", "floor", "cap", "step_safe", "no_growth", "burst", "over_commit", "burst_mono"]
+CLAUSES = ["agree", "answered", "floor", "cap", "step_safe", "no_growth", "burst", "over_commit", "count", "burst_mono"]
 RULE = ("calc cases: distinct input tuples under the global-allocate strategy that were answered (no panic); "
         "history cases: distinct histories in which at some point at least two instances are on record and which "
         "contain a limit change, an instance removal, a concurrent batch, or a state whose sum exceeds the limit")
@@ -29,8 +29,11 @@ ASSUMPTIONS = [
     "history theorems need no bound on limits or on the number of instances",
     "the over_commit clause reads 'sum at most the limit, an instance held at the minimum quota of 1 aside' as: the sum "
     "of the quotas above 1 never exceeds max(limit, its value before the step)",
-    "one schema per history; the upstream's item type does not change within a history; limits in histories are >= 0 "
-    "(validation), arbitrary int32 in calc cases",
+    "histories: one upstream with 1-3 schemas (both item types, allocate and count strategy, item-type changes "
+    "mid-history, reports with the old / no item type); limits in histories are >= 0 (validation), arbitrary int32 in "
+    "calc cases; a report refused for an item-type mismatch ('err') is expected, not a violation",
+    "quotas of a schema = those recorded with the schema's current item type; items recorded with the other type "
+    "(left from before a type change) are a different resource: not counted, and counted again if the type is switched back",
 ]
 
 MAXI = 2 ** 31 - 1
@@ -123,7 +126,39 @@ def corpus():
     for typ in ("max", "bucket"):
         cs.append({"kind": "hist", "typ": typ, "limit": MAXI, "burst": MAXI if typ == "bucket" else 0, "extra": 0,
                    "steps": wrap})
-    return cs
+
+    def rep(i, items):
+        return {"i": i, "items": items}
+
+    def it(sid, typ, used=0, level=0, count=False):
+        return {"s": sid, "typ": typ, "count": count, "used": used, "level": level}
+    # a negative reported usage makes the server record the upstream level -150: expectedAllocatePercent = 0,
+    # and the unrepaired calculateNextQuota panicked (integer divide by zero) on every later report
+    for used in (-1500, 1073740320):
+        cs.append({"kind": "hist", "extra": 0, "schemas": [{"s": 0, "typ": "max", "limit": 1000, "burst": 0}], "steps": [
+            {"op": "reports", "rs": [rep(1, [it(0, "max", used, 0)])]},
+            {"op": "reports", "rs": [rep(2, [it(0, "max", 0, 0)])]},
+            {"op": "reports", "rs": [rep(1, [it(0, "max", 0, 0)])]},
+            {"op": "reports", "rs": [rep(2, [it(0, "max", 10, 100)])]}]})
+    # two schemas (count strategy on the second for gw2); the first changes its item type while both instances
+    # hold quotas of the old type: old type refused, new type answered (the unrepaired calculateUpstreamCondition
+    # dereferenced the missing member of the configuration), a report without the second schema, items without type
+    cs.append({"kind": "hist", "extra": 0,
+               "schemas": [{"s": 0, "typ": "max", "limit": 1000, "burst": 0}, {"s": 1, "typ": "bucket", "limit": 500, "burst": 50}],
+               "steps": [
+                   {"op": "reports", "rs": [rep(1, [it(0, "max", 5, 50), it(1, "bucket", 5, 50)])]},
+                   {"op": "reports", "rs": [rep(2, [it(0, "max", 5, 50), it(1, "bucket", 5, 50, True)])]},
+                   {"op": "setschema", "s": 0, "typ": "bucket", "limit": 800, "burst": 80},
+                   {"op": "reports", "rs": [rep(1, [it(0, "max", 5, 50), it(1, "bucket", 5, 50)])]},
+                   {"op": "reports", "rs": [rep(1, [it(0, "bucket", 5, 50), it(1, "bucket", 5, 50)])]},
+                   {"op": "reports", "rs": [rep(2, [it(0, "bucket", 5, 50), it(1, "bucket", 5, 50)])]},
+                   {"op": "reports", "rs": [rep(1, [it(0, "bucket", 5, 50)])]},
+                   {"op": "reports", "rs": [rep(2, [it(0, "none", 5, 50), it(1, "none", 5, 50)])]},
+                   {"op": "setschema", "s": 0, "typ": "max", "limit": 30, "burst": 0},
+                   {"op": "reports", "rs": [rep(1, [it(0, "max", 5, 100), it(1, "bucket", 5, 50)])]},
+                   {"op": "reports", "rs": [rep(2, [it(0, "max", 5, 100), it(1, "bucket", 5, 50)])]},
+               ]})
+    return [upgrade(c) for c in cs]
 
 
 def gen_calc_grid(rng):
@@ -228,8 +263,91 @@ def gen_contention(rng):
     return {"kind": "hist", "typ": typ, "limit": limit, "burst": burst, "extra": 0, "steps": steps}
 
 
+def upgrade(case):
+    """single-schema history in the short form (typ/limit/burst + steps with i/used/level) -> general form"""
+    if case.get("kind") != "hist" or "schemas" in case:
+        return case
+    typ = case["typ"]
+    steps = []
+    for st in case["steps"]:
+        if st["op"] == "reports":
+            steps.append({"op": "reports", "rs": [
+                {"i": r["i"], "items": [{"s": 0, "typ": typ, "count": False, "used": r["used"], "level": r["level"]}]}
+                for r in st["rs"]]})
+        elif st["op"] == "setlimit":
+            steps.append({"op": "setschema", "s": 0, "typ": typ, "limit": st["limit"], "burst": st["burst"]})
+        else:
+            steps.append(st)
+    return {"kind": "hist", "extra": case["extra"],
+            "schemas": [{"s": 0, "typ": typ, "limit": case["limit"], "burst": case["burst"]}], "steps": steps}
+
+
+def other(typ):
+    return "bucket" if typ == "max" else "max"
+
+
+def gen_multi(rng, conc):
+    """One upstream with 1-3 schemas of both item types; instances report all (sometimes some) of them; a schema may
+    use the count strategy; schemas change limit, burst and item type; after a type change an instance may still
+    report the old type once (refused), or no type at all."""
+    ns = rng.choice([1, 2, 2, 3])
+    lim = H_LIMITS[3:] if conc else H_LIMITS[1:]
+    schemas = []
+    for k in range(ns):
+        typ = rng.choice(["max", "bucket"])
+        limit = rng.choice(lim)
+        schemas.append({"s": k, "typ": typ, "limit": limit,
+                        "burst": rng.choice([0, 1, 10, limit, 2 * limit + 1]) if typ == "bucket" else 0})
+    cur = [dict(x) for x in schemas]
+    count_schema = rng.below(ns) if rng.chance(1, 4) else -1       # this schema is under the count strategy
+    ninst = rng.randint(2, 4)
+    known = {(i, k): cur[k]["typ"] for i in range(1, ninst + 1) for k in range(ns)}
+    steps = []
+
+    def items_of(i):
+        ks = list(range(ns))
+        if ns > 1 and rng.chance(1, 8):
+            ks = rng.sample(ks, rng.randint(1, ns - 1))
+            ks.sort()
+        its = []
+        for k in ks:
+            typ = known[(i, k)]
+            if rng.chance(1, 25):
+                typ = "none"
+            cnt = (k == count_schema) if not rng.chance(1, 40) else (k != count_schema)
+            used = 0 if conc else rng.choice(H_USED + [cur[k]["limit"] // 3, cur[k]["limit"]])
+            its.append({"s": k, "typ": typ, "count": cnt, "used": used, "level": rng.choice(H_LEVELS)})
+            known[(i, k)] = cur[k]["typ"]                        # after this report (answer or refusal) it knows
+        return its
+
+    for _ in range(rng.randint(8, 24)):
+        r = rng.below(100)
+        if r < 12:
+            k = rng.below(ns)
+            sc = cur[k]
+            if rng.chance(2, 5):                                  # item-type change
+                sc["typ"] = other(sc["typ"])
+                for i in range(1, ninst + 1):
+                    if rng.chance(1, 2):
+                        known[(i, k)] = sc["typ"]
+            f = rng.choice([(1, 10), (1, 2), (2, 1), (10, 1), (1, 1), (1, 4)])
+            sc["limit"] = max(1 if conc else 0, min(10 ** 6, sc["limit"] * f[0] // f[1]))
+            sc["burst"] = rng.choice([0, 7, sc["limit"], 2 * sc["limit"] + 1]) if sc["typ"] == "bucket" else 0
+            steps.append({"op": "setschema", "s": k, "typ": sc["typ"], "limit": sc["limit"], "burst": sc["burst"]})
+        elif r < 18:
+            steps.append({"op": "remove", "i": rng.randint(1, ninst)})
+        elif conc and r < 55:
+            ids = rng.sample(list(range(1, ninst + 1)), rng.randint(2, min(3, ninst)))
+            steps.append({"op": "reports", "rs": [{"i": i, "items": items_of(i)} for i in ids]})
+        else:
+            i = rng.randint(1, ninst)
+            steps.append({"op": "reports", "rs": [{"i": i, "items": items_of(i)}]})
+    return {"kind": "hist", "extra": rng.choice([0, 0, 6, 10, 50]), "schemas": schemas, "steps": steps}
+
+
 def generate(rng, tier, scale=1):
-    ng, nr, nl, nh, nc, nk = (1700, 800, 500, 150, 50, 36) if tier == "quick" else (30000, 15000, 8000, 2500, 800, 500)
+    ng, nr, nl, nh, nc, nk, nm = ((1700, 800, 500, 90, 30, 30, 90) if tier == "quick"
+                                  else (30000, 15000, 8000, 1500, 500, 400, 1500))
     calcs, hists = [], []
     for _ in range(ng * scale):
         calcs.append(gen_calc_grid(rng))
@@ -243,6 +361,9 @@ def generate(rng, tier, scale=1):
         hists.append(gen_hist(rng, True))
     for _ in range(nk * scale):
         hists.append(gen_contention(rng))
+    for k in range(nm * scale):
+        hists.append(gen_multi(rng, k % 3 == 2))
+    hists = [upgrade(h) for h in hists]
     # spread the (expensive) histories evenly over the stream so that the Coq shards are balanced
     hists = rng.shuffle(hists)
     cs, per, h = [], max(1, len(calcs) // max(1, len(hists))), 0
@@ -277,24 +398,52 @@ def coq_case(case, obs):
             # the harness itself failed (not the guarded call): make the case disagree visibly
             return "(CCalc %s (Some (0, (-1))))" % inp
         return "(CCalc %s %s)" % (inp, cans(obs))
+    return coq_hist(case, obs)
+
+
+def cquotas(qs):
+    return clist(["(%s, (%s, %s))" % (cZ(q["i"]), cZ(q["q"]), cZ(q["b"])) for q in qs])
+
+
+def copt_typ(t):
+    return "None" if t == "none" else "(Some %s)" % ctyp(t)
+
+
+def coq_hist(case, obs):
     steps = obs.get("steps") if isinstance(obs, dict) else None
-    head = "(CHist %s %s %s %s " % (ctyp(case["typ"]), cZ(case["limit"]), cZ(case["burst"]), cZ(case["extra"]))
+    schemas = clist(["(%s, (%s, (%s, %s)))" % (cZ(sc["s"]), ctyp(sc["typ"]), cZ(sc["limit"]), cZ(sc["burst"]))
+                     for sc in case["schemas"]])
+    head = "(CHist %s %s " % (cZ(case["extra"]), schemas)
     if steps is None or len(steps) != len(case["steps"]):
-        # harness panic mid-history: an impossible observation makes agree (and floor) false
-        return head + "[(BReports [(1, 0, 0, 0)], {| o_cur := [0]; o_ans := [Some (0, 0)]; o_quotas := []; o_rec := 0 |})])"
+        # harness panic mid-history: an unanswered report makes agree and answered false
+        sid = case["schemas"][0]["s"]
+        return head + ("[(MReports [{| r_i := 1; r_items := [{| it_s := %s; it_typ := None; it_count := false; it_used := 0; "
+                       "it_level := 0; it_up := 0 |}]; r_cur := [0]; r_res := RPanic |}], "
+                       "[{| v_s := %s; v_max := []; v_bucket := []; v_rec_max := 0; v_rec_qps := 0 |}])])" % (cZ(sid), cZ(sid)))
     tr = []
     for st, ob in zip(case["steps"], steps):
+        up = {so["s"]: so["uplevel"] for so in ob["schemas"]}
         if st["op"] == "reports":
-            o = "(BReports %s)" % clist(["(%s, %s, %s, %s)" % (cZ(r["i"]), cZ(r["used"]), cZ(r["level"]), cZ(ob["uplevel"]))
-                                          for r in st["rs"]])
-        elif st["op"] == "setlimit":
-            o = "(BSetLimit %s %s)" % (cZ(st["limit"]), cZ(st["burst"]))
+            rs = []
+            for r, res in zip(st["rs"], ob["reports"]):
+                items = clist(["{| it_s := %s; it_typ := %s; it_count := %s; it_used := %s; it_level := %s; it_up := %s |}" %
+                               (cZ(it["s"]), copt_typ(it["typ"]), cbool(it["count"]), cZ(it["used"]), cZ(it["level"]),
+                                cZ(up.get(it["s"], 0))) for it in r["items"]])
+                if res["res"] == "ok":
+                    rr = "(RAns %s)" % clist(["(%s, %s)" % (cZ(a["q"]), cZ(a["b"])) for a in res["ans"]])
+                else:
+                    rr = "RErr" if res["res"] == "err" else "RPanic"
+                rs.append("{| r_i := %s; r_items := %s; r_cur := %s; r_res := %s |}" %
+                          (cZ(r["i"]), items, clist([cZ(x) for x in res["cur"]]), rr))
+            o = "(MReports %s)" % clist(rs)
+        elif st["op"] == "setschema":
+            o = "(MSet %s %s %s %s)" % (cZ(st["s"]), ctyp(st["typ"]), cZ(st["limit"]), cZ(st["burst"]))
         else:
-            o = "(BRemove %s)" % cZ(st["i"])
-        b = ("{| o_cur := %s; o_ans := %s; o_quotas := %s; o_rec := %s |}" %
-             (clist([cZ(x) for x in ob["cur"]]), clist([cans(a) for a in ob["ans"]]),
-              clist(["(%s, (%s, %s))" % (cZ(q["i"]), cZ(q["q"]), cZ(q["b"])) for q in ob["quotas"]]), cZ(ob["rec"])))
-        tr.append(cpair(o, b))
+            o = "(MRemove %s)" % cZ(st["i"])
+        views = clist(["{| v_s := %s; v_max := %s; v_bucket := %s; v_rec_max := %s; v_rec_qps := %s |}" %
+                       (cZ(so["s"]), cquotas(so["max"]), cquotas(so["bucket"]), cZ(so["rec_max"]), cZ(so["rec_qps"]))
+                       for so in ob["schemas"]])
+        tr.append(cpair(o, views))
     return head + clist(tr) + ")"
 
 
@@ -302,21 +451,36 @@ def coq_case(case, obs):
 def _hist_features(case, obs):
     steps = obs.get("steps", []) if isinstance(obs, dict) else []
     feats = set()
-    limit = case["limit"]
+    if len(case["schemas"]) > 1:
+        feats.add("multi-schema")
+    cfg = {sc["s"]: dict(sc) for sc in case["schemas"]}
     two = False
     for st, ob in zip(case["steps"], steps):
-        if st["op"] == "setlimit":
-            limit = st["limit"]
+        if st["op"] == "setschema":
+            if cfg[st["s"]]["typ"] != st["typ"]:
+                feats.add("type-change")
+            cfg[st["s"]] = {"s": st["s"], "typ": st["typ"], "limit": st["limit"], "burst": st["burst"]}
             feats.add("setlimit")
         elif st["op"] == "remove":
             feats.add("remove")
-        elif len(st["rs"]) > 1:
-            feats.add("conc")
-        s = sum(q["q"] for q in ob["quotas"])
-        if len(ob["quotas"]) >= 2:
-            two = True
-        if s > limit:
-            feats.add("over")
+        else:
+            if len(st["rs"]) > 1:
+                feats.add("conc")
+            for r, res in zip(st["rs"], ob["reports"]):
+                if res["res"] == "err":
+                    feats.add("refused")
+                if res["res"] == "panic":
+                    feats.add("unanswered")
+                if any(it["count"] for it in r["items"]):
+                    feats.add("count-strategy")
+                if any(it["typ"] == "none" for it in r["items"]):
+                    feats.add("untyped-item")
+        for so in ob["schemas"]:
+            qs = so["max"] if cfg[so["s"]]["typ"] == "max" else so["bucket"]
+            if len(qs) >= 2:
+                two = True
+            if sum(q["q"] for q in qs) > cfg[so["s"]]["limit"]:
+                feats.add("over")
     return two, feats
 
 
@@ -337,7 +501,7 @@ def stats(case, obs):
         if case.get("count"):
             return ["calc:count-strategy"]
         if not obs.get("ok"):
-            return ["calc:panic(div by zero)"]
+            return ["calc:panic"]
         q, cur, tot, al = obs["q"], case["current"], case["total"], case["allocated"]
         labs = ["calc:" + ("new" if cur == 0 else "grow" if q > cur else "shrink" if q < cur else "same")]
         labs.append("calc:" + ("over-committed" if al > tot else "full" if al == tot else "room"))
@@ -349,12 +513,12 @@ def stats(case, obs):
         labs.append("calc:" + case["typ"])
         return labs
     two, feats = _hist_features(case, obs)
-    labs = ["hist:len<=%d" % (10 * ((len(case["steps"]) + 9) // 10))] + ["hist:" + f for f in sorted(feats)]
+    labs = ["hist:len<=%d" % (10 * ((len(case["steps"]) + 9) // 10)), "hist:schemas=%d" % len(case["schemas"])]
+    labs += ["hist:" + f for f in sorted(feats)]
     for st, ob in zip(case["steps"], obs.get("steps", [])):
         labs.append("op:%s%s" % (st["op"], "(conc)" if st["op"] == "reports" and len(st["rs"]) > 1 else ""))
-        for a in ob["ans"]:
-            if not a.get("ok"):
-                labs.append("op:report->no answer")
+        for res in ob["reports"]:
+            labs.append("report->" + res["res"])
     return labs
 
 
@@ -372,6 +536,21 @@ def shrink(case):
         if st["op"] == "reports" and len(st["rs"]) > 1:
             for j in range(len(st["rs"])):
                 yield dict(case, steps=steps[:i] + [dict(st, rs=st["rs"][:j] + st["rs"][j + 1:])] + steps[i + 1:])
+    if len(case["schemas"]) > 1:
+        for sc in case["schemas"]:
+            keep = [x for x in case["schemas"] if x["s"] != sc["s"]]
+            nsteps = []
+            for st in steps:
+                if st["op"] == "setschema" and st["s"] == sc["s"]:
+                    continue
+                if st["op"] == "reports":
+                    rs = [dict(r, items=[it for it in r["items"] if it["s"] != sc["s"]]) for r in st["rs"]]
+                    rs = [r for r in rs if r["items"]]
+                    if not rs:
+                        continue
+                    st = dict(st, rs=rs)
+                nsteps.append(st)
+            yield dict(case, schemas=keep, steps=nsteps)
 
 
 def neighbours(case, rng):
